@@ -6,8 +6,8 @@ usage: tools_seed.py <src dir with patch.diff demo.py meta.json> <seed id, e.g. 
 Steps (all on a scratch worktree of /repo HEAD under /tmp, removed afterwards):
   1. patch applies to HEAD            2. demo fails with the patch, passes without
   3. the repository's test suite passes with the patch (same outcome as the unchanged tree)
-Then, on /repo itself: apply, run the quick check(s) of the property, record exit status and VIOLATION
-lines, and undo (git checkout -- .).
+  4. the property's quick check(s), run from a snapshot of the committed /verif with VERIF_REPO=<scratch tree>,
+     report a VIOLATION (tools_seed_final.sh repeats step 4 on /repo itself: git apply / check / git checkout).
 """
 import json
 import os
@@ -65,22 +65,20 @@ def main():
                 tail = out.strip().splitlines()[-1] if out.strip() else ""
                 failed = [l for l in out.splitlines() if l.startswith("FAILED")]
                 conf["suite_with_change"] = {"summary": tail, "failed": failed, "wall_s": round(time.time() - t)}
-    finally:
-        sh(f"git -C /repo worktree remove --force {wt}")
-    if conf.get("patch_applies"):
-        rc, out = sh("git -C /repo status --porcelain")
-        assert out.strip() == "", "repo not clean: " + out
-        rc, out = sh(f"git -C /repo apply {dst}/patch.diff")
-        try:
+            # run the property's quick check(s) from a snapshot of /verif against the patched scratch tree
+            snap = f"/tmp/seedverif-{sid}"
+            sh(f"rm -rf {snap}; mkdir -p {snap} && cd /verif && git ls-files -z | xargs -0 cp --parents -t {snap}")
+            sh(f"cp -r /verif/_deps {snap}/ 2>/dev/null")
             conf["checks"] = {}
             for c in checks:
                 t = time.time()
-                rc, out = sh(f"./check {c} --tier quick", cwd="/verif", timeout=3000)
-                viol = [l for l in out.splitlines() if l.startswith("VIOLATION")]
-                conf["checks"][c] = {"exit": rc, "violations": viol[:8], "wall_s": round(time.time() - t)}
-        finally:
-            sh("git -C /repo checkout -- .")
-            sh("git -C /verif checkout -- evidence")
+                rc, out = sh(f"./check {c} --tier quick", cwd=snap, env=dict(ENV, VERIF_REPO=wt), timeout=3000)
+                viol = [l.replace(snap, "/verif") for l in out.splitlines() if l.startswith("VIOLATION")]
+                conf["checks"][c] = {"exit": rc, "violations": viol[:8], "wall_s": round(time.time() - t),
+                                     "tail": out.strip().splitlines()[-1][-300:] if out.strip() else ""}
+            sh(f"rm -rf {snap}")
+    finally:
+        sh(f"git -C /repo worktree remove --force {wt}")
     meta["confirmation"] = conf
     json.dump(meta, open(os.path.join(dst, "meta.json"), "w"), indent=1)
     ok_demo = conf.get("demo_with_change", {}).get("exit", 0) != 0 and conf["demo_without_change"]["exit"] == 0
